@@ -36,6 +36,7 @@ type Solver struct {
 	Errors    []string
 	timeoutMs int
 	log       io.Writer
+	dead      bool
 }
 
 func NewSolver(kind string, timeoutMs int) (*Solver, error) {
@@ -78,7 +79,22 @@ func (s *Solver) Close() {
 	}
 }
 
+// Restart replaces a dead solver process.
+func (s *Solver) Restart() error {
+	n, err := NewSolver(s.kind, s.timeoutMs)
+	if err != nil {
+		return err
+	}
+	s.Close()
+	n.Queries, n.SolveTime, n.Errors, n.log = s.Queries, s.SolveTime, s.Errors, s.log
+	*s = *n
+	return nil
+}
+
 func (s *Solver) send(line string) {
+	if s.dead {
+		return
+	}
 	if s.log != nil {
 		fmt.Fprintln(s.log, line)
 	}
@@ -184,9 +200,20 @@ func (s *Solver) Assert(t *Term) {
 }
 
 func (s *Solver) checkSat() SatResult {
+	if s.dead {
+		return Unknown
+	}
 	t0 := time.Now()
 	s.send("(check-sat)")
+	// watchdog: some theories ignore the solver-side timeout; kill the process when it overruns
+	timer := time.AfterFunc(time.Duration(s.timeoutMs)*time.Millisecond+10*time.Second, func() {
+		s.dead = true
+		if s.cmd != nil && s.cmd.Process != nil {
+			s.cmd.Process.Kill()
+		}
+	})
 	r, err := s.readSexpr()
+	timer.Stop()
 	s.SolveTime += time.Since(t0)
 	s.Queries++
 	if err != nil {
@@ -253,6 +280,9 @@ func (s *Solver) getModel() map[string]ModelVal {
 			sb.WriteByte(' ')
 		}
 		sb.WriteString("))")
+		if s.dead {
+			return model
+		}
 		s.send(sb.String())
 		r, err := s.readSexpr()
 		if err != nil || strings.HasPrefix(r, "(error") {
@@ -272,6 +302,22 @@ func (s *Solver) getModel() map[string]ModelVal {
 			}
 			mv, ok := parseModelVal(sym.sort, pair.list[1])
 			if ok {
+				if s.ts.big[name] && s.declUF["len!"] {
+					// abstract byte string: its length lives in the UF len!; materialise content of that length
+					s.send("(get-value ((|len!| " + smtSymName(name) + ")))")
+					if lr, err := s.readSexpr(); err == nil {
+						if lx, _ := parseSexpr(lr); len(lx.list) == 1 && len(lx.list[0].list) == 2 {
+							if lv, ok := parseModelVal(IntSort, lx.list[0].list[1]); ok && lv.I >= 0 && lv.I < 1<<26 {
+								b := make([]byte, lv.I)
+								copy(b, mv.S)
+								for i := len(mv.S); i < len(b); i++ {
+									b[i] = 'x'
+								}
+								mv.S = b
+							}
+						}
+					}
+				}
 				model[name] = mv
 			} else {
 				s.Errors = append(s.Errors, "unparsed model value for "+name+": "+pair.list[1].String())
